@@ -40,12 +40,12 @@ Qed.
 Lemma norm_open_cases : forall cw o, count_pt (min_coord o) o = 1%nat -> (2 <= length o)%nat ->
   exists a b, o = a ++ min_coord o :: b /\ ~ In (min_coord o) a /\ ~ In (min_coord o) b /\
     let c := min_coord o :: (b ++ a) ++ [min_coord o] in (norm_open cw o = c \/ norm_open cw o = rev c) /\
-    close_ring false (scroll (min_coord o) o) = c.
+    close_ring POLY_CLOSE_ALLOW_REPEATED (scroll (min_coord o) o) = c.
 Proof.
   intros cw o Hc Hl. destruct (o_split o Hc Hl) as (a & b & E & Ha & Hb & Hne). exists a, b.
   split; [exact E|]. split; [exact Ha|]. split; [exact Hb|]. cbn zeta.
   assert (Hn : ~ In (min_coord o) (b ++ a)) by (intros H; apply in_app_or in H; tauto).
-  assert (Hcl : close_ring false (scroll (min_coord o) o) = min_coord o :: (b ++ a) ++ [min_coord o]).
+  assert (Hcl : close_ring POLY_CLOSE_ALLOW_REPEATED (scroll (min_coord o) o) = min_coord o :: (b ++ a) ++ [min_coord o]).
   { remember (min_coord o) as m eqn:Em. rewrite E. rewrite scroll_app by exact Ha. apply close_unique; assumption. }
   split; [|exact Hcl]. unfold norm_open. rewrite Hcl. destruct (Bool.eqb _ cw); [right|left]; reflexivity.
 Qed.
@@ -65,7 +65,9 @@ Proof.
   destruct (norm_open_cases true o Hc Hl2) as (a & b & E & Ha & Hb & _ & Hcl). cbn zeta in Hcl.
   assert (Hn : ~ In (min_coord o) (b ++ a)) by (intros H; apply in_app_or in H; tauto).
   assert (Hcl2 : close_ring true (scroll (min_coord o) o) = min_coord o :: (b ++ a) ++ [min_coord o]).
-  { remember (min_coord o) as m eqn:Em. rewrite E. rewrite scroll_app by exact Ha. reflexivity. }
+  { assert (Hne : b ++ a <> []).
+    { intros H. apply app_eq_nil in H. destruct H as [Hb0 Ha0]. apply (f_equal (@length pt)) in E. rewrite Hb0, Ha0 in E. cbn in E. lia. }
+    remember (min_coord o) as m eqn:Em. rewrite E. rewrite scroll_app by exact Ha. apply close_unique_gen; assumption. }
   unfold norm_closed, norm_open. rewrite removelast_last, Hcl, Hcl2.
   assert (Hlen : (4 <=? length (min_coord o :: (b ++ a) ++ [min_coord o]))%nat = true).
   { apply Nat.leb_le. cbn [length]. rewrite !app_length. cbn [length]. apply (f_equal (@length pt)) in E.
@@ -372,8 +374,8 @@ Proof.
   intros r H Hcl. destruct r as [|f t] eqn:Er; [left; reflexivity|]. right. rewrite <- Er in *.
   assert (Hne : r <> []) by (rewrite Er; discriminate).
   assert (Hok : Nat.eqb (count_pt (min_coord (removelast r)) (removelast r)) 1 && (2 <=? length (removelast r))%nat
-                && Bool.eqb (isCCW (rev (close_ring false (scroll (min_coord (removelast r)) (removelast r)))))
-                            (negb (isCCW (close_ring false (scroll (min_coord (removelast r)) (removelast r))))) = true).
+                && Bool.eqb (isCCW (rev (close_ring POLY_CLOSE_ALLOW_REPEATED (scroll (min_coord (removelast r)) (removelast r)))))
+                            (negb (isCCW (close_ring POLY_CLOSE_ALLOW_REPEATED (scroll (min_coord (removelast r)) (removelast r))))) = true).
   { rewrite Er in H |- *. exact H. }
   apply andb_true_iff in Hok. destruct Hok as [Hok Hd]. apply andb_true_iff in Hok. destruct Hok as [Hc Hl].
   apply Nat.eqb_eq in Hc. apply Nat.leb_le in Hl. apply eqb_prop in Hd.
